@@ -8,6 +8,8 @@ from ..core import call_attr, calls_in, const, dotted, is_const, kwarg, norm, sl
 from . import c04
 
 EXPLANATION = [
+    'C05.buffer-size-layout: the return parameters of Read Buffer Size, LE Read Buffer Size and LE Read Buffer Size [v2] are declared with the field order and widths of the Core specification (length(2), count(1) pairs for LE; ACL length(2), SCO length(1), ACL count(2), SCO count(2) for BR/EDR).',
+    'C05.acl-ctor: every HCI_AclDataPacket(...) construction in host, controller and link, with positional arguments resolved against the declared field order, gives the start/continuation marker to pb_flag, a zero to bc_flag and len(fragment) / fragment to data_total_length / data.',
     'C05.zero-valid: fields declared `int | None` in the anchored modules are tested for presence with `is None` / `is not None`, never by truthiness, so 0 (sequence number 0, time stamp 0, length 0) is handled like any other value.',
     'C05.acl-fragments: every HCI_AclDataPacket construction site lies in a loop whose stride equals the slice width, bounded by a '
     'buffer length; data_total_length == len(fragment); the continuation marker is set iff offset > 0; each fragment is handed on once.',
@@ -260,6 +262,62 @@ def assembler(ctx):
         R.check('L2CAP_PDU.from_bytes(pdu)' in norm(oc), rule, 'bumble.host.Connection.on_acl_pdu', 'reassembled bytes parsed as one L2CAP PDU', 'reassembled data is not parsed as an L2CAP PDU', p.loc(oc))
 
 
+def acl_ctor_binding(ctx):
+    """Every construction of an ACL data packet binds the start/continuation marker to `pb_flag`, the length to
+    `data_total_length` and the fragment to `data`, whether it passes its arguments by keyword or by position (positional
+    arguments are resolved against the declared field order of the class)."""
+    R, p = ctx.r, ctx.p
+    rule = 'C05.acl-ctor'
+    ci = p.cls('bumble.hci.HCI_AclDataPacket')
+    if ci is None:
+        R.bad(rule, 'bumble.hci.HCI_AclDataPacket', 'anchor missing')
+        return
+    order = [st.target.id for st in ci.node.body if isinstance(st, ast.AnnAssign) and isinstance(st.target, ast.Name) and 'ClassVar' not in text(st.annotation)]
+    n = 0
+    for mn in ('bumble.controller', 'bumble.host', 'bumble.link', 'bumble.device', 'bumble.l2cap'):
+        m = p.modules.get(mn)
+        for c in (ast.walk(m.tree) if m else []):
+            if not (isinstance(c, ast.Call) and call_attr(c) == 'HCI_AclDataPacket'):
+                continue
+            n += 1
+            bound = {order[i]: a for i, a in enumerate(c.args) if i < len(order)}
+            bound.update({k.arg: k.value for k in c.keywords if k.arg})
+            pb, bc, ln, data = bound.get('pb_flag'), bound.get('bc_flag'), bound.get('data_total_length'), bound.get('data')
+            marker = pb is not None and ('PB_' in norm(pb) or 'offset' in norm(pb) or 'pb' in norm(pb).lower())
+            ok = marker and bc is not None and (not isinstance(bc, ast.Constant) or bc.value == 0) and 'PB_' not in norm(bc) and ln is not None and data is not None and norm(ln) == f'len({norm(data)})'
+            R.check(ok, rule, f'{p.qual_of(c)} | HCI_AclDataPacket(...)', f'pb_flag <- {norm(pb)[:40] if pb is not None else None}, bc_flag <- {norm(bc) if bc is not None else None}, length <- {norm(ln) if ln is not None else None}',
+                    f'with the declared field order {order} this construction binds pb_flag <- `{norm(pb)[:50] if pb is not None else None}` and bc_flag <- `{norm(bc)[:50] if bc is not None else None}`: the start / continuation marker does not end up in the packet boundary flag (every fragment is marked as a start, or the length does not describe the fragment)', f'{m.rel}:{c.lineno}')
+    R.check(n >= 2 and order[:1] == ['connection_handle'], rule, 'HCI_AclDataPacket constructions', f'{n} constructions resolved against the field order {order}', f'only {n} constructions found / unexpected field order {order}')
+
+
+# Core Vol 4 Part E 7.4.5, 7.8.2: return parameters of the three Read Buffer Size commands, after the status octet
+BUFFER_SIZE_LAYOUT = {
+    'bumble.hci.HCI_Read_Buffer_Size_ReturnParameters': [('hc_acl_data_packet_length', 2), ('hc_synchronous_data_packet_length', 1), ('hc_total_num_acl_data_packets', 2), ('hc_total_num_synchronous_data_packets', 2)],
+    'bumble.hci.HCI_LE_Read_Buffer_Size_ReturnParameters': [('le_acl_data_packet_length', 2), ('total_num_le_acl_data_packets', 1)],
+    'bumble.hci.HCI_LE_Read_Buffer_Size_V2_ReturnParameters': [('le_acl_data_packet_length', 2), ('total_num_le_acl_data_packets', 1), ('iso_data_packet_length', 2), ('total_num_iso_data_packets', 1)],
+}
+
+
+def buffer_size_layout(ctx):
+    """The geometry the host fragments against is what a real controller put on the wire: the return parameters of the Read
+    Buffer Size commands are declared in the order and with the widths of the specification (bumble's own controller uses
+    the same classes, so a permuted declaration still round-trips between two bumble ends)."""
+    R, p = ctx.r, ctx.p
+    rule = 'C05.buffer-size-layout'
+    for q, want in BUFFER_SIZE_LAYOUT.items():
+        ci = p.cls(q)
+        if ci is None:
+            R.bad(rule, q, 'anchor missing')
+            continue
+        got = []
+        for st in ci.node.body:
+            if isinstance(st, ast.AnnAssign) and isinstance(st.target, ast.Name) and isinstance(st.value, ast.Call):
+                md = next((c for c in ast.walk(st.value) if isinstance(c, ast.Call) and call_attr(c) == 'metadata' and c.args), None)
+                got.append((st.target.id, const(md.args[0]) if md is not None and is_const(md.args[0]) else norm(md.args[0]) if md is not None else None))
+        R.check(got == want, rule, q, f'fields {[f"{n}({w})" for n, w in want]} in the order of the specification',
+                f'declared as {got}, the specification orders them {want}: the host reads another controller\'s buffer size answer into the wrong fields (packet length and packet count mixed up) and fragments against a wrong geometry', p.loc(ci.node))
+
+
 def l2cap_header(ctx):
     R, p = ctx.r, ctx.p
     rule = 'C05.l2cap-header'
@@ -358,6 +416,8 @@ def zero_valid_rule(ctx):
 
 
 RULES = [
+    ('C05.buffer-size-layout', buffer_size_layout),
+    ('C05.acl-ctor', acl_ctor_binding),
     ('C05.zero-valid', zero_valid_rule),
     ('C05.queue-geometry', queue_geometry),
     ('C05.acl-fragments', acl_fragments),
